@@ -229,7 +229,8 @@ func render(v reflect.Value) string {
 }
 
 // DeepEqual compares two values structurally; a nil slice equals an empty slice, unexported
-// fields are compared, functions are equal when both or neither are nil.
+// fields are compared, functions are equal when both or neither are nil, struct fields named
+// StartPos (file positions recorded by the decoder) are skipped.
 func DeepEqual(a, b interface{}) bool {
 	return deepEq(reflect.ValueOf(a), reflect.ValueOf(b), map[[2]uintptr]bool{}, 0)
 }
@@ -262,6 +263,9 @@ func deepEq(a, b reflect.Value, seen map[[2]uintptr]bool, depth int) bool {
 		return deepEq(a.Elem(), b.Elem(), seen, depth+1)
 	case reflect.Struct:
 		for i := 0; i < a.NumField(); i++ {
+			if a.Type().Field(i).Name == "StartPos" {
+				continue // absolute file positions recorded while decoding are not content
+			}
 			if !deepEq(a.Field(i), b.Field(i), seen, depth+1) {
 				return false
 			}
